@@ -187,6 +187,27 @@ func genPlanC04(rt *rapid.T, realClock bool) *Plan {
 		total += g.AfterUs
 		p.Gw = append(p.Gw, g)
 	}
+	if !c.TCP && !realClock && n <= 120 && rapid.IntRange(0, 4).Draw(rt, "heartbeat-failure") == 0 {
+		// a heartbeat exchange that stays unanswered in the middle of the stream: the client gives the connection up and
+		// connects again (C09); the numbering restarts with the new connection and with nothing else - a client that
+		// carries on with the old connection must carry on with its numbering too
+		p.Cfg.ResendUs = rapid.SampledFrom([]int{2000, 3000, 5000}).Draw(rt, "hbf-resend")
+		p.Cfg.TimeoutUs = p.Cfg.ResendUs * rapid.IntRange(1, 3).Draw(rt, "hbf-timeout-resends")
+		hb := total / rapid.IntRange(2, 5).Draw(rt, "hbf-fraction")
+		if hb < p.Cfg.TimeoutUs+p.Cfg.ResendUs+1000 {
+			hb = p.Cfg.TimeoutUs + p.Cfg.ResendUs + 1000
+		}
+		p.Cfg.HeartbeatUs = (hb/1000 + 1) * 1000
+		for i := 0; i < rapid.IntRange(0, 2).Draw(rt, "hbf-good-exchanges"); i++ {
+			p.Hb = append(p.Hb, okFate(337))
+		}
+		for i := 0; i < p.Cfg.TimeoutUs/p.Cfg.ResendUs+2; i++ {
+			p.Hb = append(p.Hb, Fate{Act: "lose"})
+		}
+		// traffic behind the failure
+		p.Gw = append(p.Gw, GwStep{AfterUs: p.Cfg.HeartbeatUs + p.Cfg.TimeoutUs + 4211, Kind: "req", Tag: 1000 + n*8, Chan: "cur", Seq: "exp", Repeat: rapid.IntRange(2, 9).Draw(rt, "hbf-after")})
+		total += p.Cfg.HeartbeatUs + p.Cfg.TimeoutUs + 4211
+	}
 	if rapid.IntRange(0, 2).Draw(rt, "socket-errors") == 0 {
 		// the socket refuses some of the client's transmissions (mostly acknowledgements in these plans):
 		// the telegram is accepted and delivered all the same, the gateway will simply repeat its request
@@ -241,6 +262,9 @@ func classifyC04(p *Plan, res *Result, rec *common.Rec) bool {
 				maxParked = parked
 			}
 		}
+	}
+	if len(p.Hb) > 0 {
+		rec.Class("heartbeat exchange unanswered in the middle of the stream")
 	}
 	for name, b := range map[string]bool{"repetition-of-previous": prev, "out-of-window": off, "foreign-channel": foreign, "reconnect": recon, "wrap-255-0": wrap, "stall>=2-parked": maxParked >= 2} {
 		if b {
